@@ -243,11 +243,14 @@ static int once(void *ctx, const unsigned char *sched, int slen, vs_run_t *r)
 
 static pthread_barrier_t gate;
 static long stress_runs;
+static volatile int32_t spin_in;              /* spin rendezvous: the threads leave it within a few cycles of each other */
 static void *stress_thread(void *p)
 {
     long k;
     for( k = 0; k < stress_runs; k++ ) {
         pthread_barrier_wait(&gate);
+        __sync_fetch_and_add(&spin_in, 1);
+        while( spin_in < nthreads ) ;
         body((int)(intptr_t)p, NULL);
         pthread_barrier_wait(&gate);
     }
@@ -288,6 +291,7 @@ int main(int argc, char **argv)
         for( t = 0; t < nthreads; t++ ) pthread_create(&th[t], NULL, stress_thread, (void*)(intptr_t)t);
         for( k = 0; k < stress_runs; k++ ) {
             setup();
+            spin_in = 0;
             pthread_barrier_wait(&gate);
             pthread_barrier_wait(&gate);
             finish_execution(NULL);
